@@ -194,6 +194,24 @@ func ctScan0(prog *load.Program, ex *absint.Exec) []ctFinding {
 					if ok {
 						kinds = []string{"encoding-length"}
 					}
+				} else if constLeafChoice(e.Term) {
+					// a length chosen between constants by secret-dependent tests (the encoding is 1 octet for the identity, 33 / 65
+					// otherwise): the finding is about those tests, and is classified like a branch on them
+					km := map[string]bool{}
+					var walk func(t *sym.Term)
+					walk = func(t *sym.Term) {
+						if t.Op == "ite" && len(t.Args) == 3 {
+							for _, k := range taintedAtomKinds(t.Args[0]) {
+								km[k] = true
+							}
+							walk(t.Args[1])
+							walk(t.Args[2])
+						}
+					}
+					walk(e.Term)
+					if len(km) > 0 {
+						kinds = SortedKeys(km)
+					}
 				}
 				out = append(out, ctFinding{fn: shortFn(e.Fn), kind: "index", shape: termShape(e.Term, 3), pos: PosStr(prog, e.Pos), detail: "memory index / slice bound depends on secret data: " + clip(e.Term.String(), 200), atoms: kinds})
 			}
@@ -426,7 +444,7 @@ var declassTable = []declassEntry{
 	{"1-key-import-range", regexp.MustCompile(`^~/secec\.NewPrivateKey$|^~/secec/bitcoin\.NewSchnorrPrivateKey$`), mk("branch"), mk("canonicity", "zero-test"), "", "validity of an imported private key: constant outcome for every valid key"},
 	{"2-key-nonzero", regexp.MustCompile(`^~/secec\.newPrivateKeyFromScalar$`), mk("branch"), mk("zero-test", "canonicity", "read-error"), "", "zero test of the private scalar: constant outcome for every valid key"},
 	{"3-rejection-sampling", regexp.MustCompile(`^~/secec\.(sampleRandomScalar|GenerateKey|sign)$`), mk("branch"), mk("zero-test", "canonicity", "read-error"), "", "rejection sampling: only rejected candidates (probability 2^-128) influence control flow and they are discarded; r and s are the published signature"},
-	{"5-identity-of-secret-multiple", regexp.MustCompile(`^\(\*~\.Point\)\.(getCompressedBytes|getUncompressedBytes|XBytes)$|^~/secec\.newPublicKeyFromPoint$`), mk("branch"), mk("zero-test", "identity"), "", "identity test on k*G, d*G or the ECDH point: the identity occurs only for a zero scalar, excluded by the non-zero guards"},
+	{"5-identity-of-secret-multiple", regexp.MustCompile(`^\(\*~\.Point\)\.(CompressedBytes|UncompressedBytes|getCompressedBytes|getUncompressedBytes|XBytes)$|^~/secec\.newPublicKeyFromPoint$`), mk("branch", "index"), mk("zero-test", "identity"), "", "identity test on k*G, d*G or the ECDH point: the identity occurs only for a zero scalar, excluded by the non-zero guards"},
 	{"5b-encoding-length", regexp.MustCompile(`^~\.SplitUncompressedPoint$`), mk("branch", "index"), mk("encoding-length"), "", "the encoding of k*G has 65 bytes unless k = 0, which the sampler / the k' test excludes"},
 	{"6-self-check-public-nonce-point", regexp.MustCompile(`^~/secec/bitcoin\.(verifySchnorrSignatureR|signSchnorr|verifySchnorrSelf)$`), mk("branch"), mk("bytes-eq", "identity", "parity", "zero-test"), "", "the mandatory BIP-340 self-check compares the recomputed public nonce point with the signature being released; k' = 0 has probability 2^-256"},
 	{"6b-self-check-bytes-equal", regexp.MustCompile(`^~/secec/bitcoin\.verifySchnorrSignatureR$`), mk("external-call"), nil, "bytes.Equal", "comparison of two encodings of the public nonce point of the signature being released"},
@@ -875,4 +893,13 @@ func fieldSpec() ringSpec {
 
 func scalarSpec() ringSpec {
 	return ringSpec{id: "C02", sort: sym.Fn, modulus: sym.N, fiatPkg: models.FiatSPkg, ringType: models.ScalarType, ringPkg: models.Mod, ringName: "Scalar"}
+}
+
+// constLeafChoice reports whether t is an ite-tree all of whose leaves are integer constants.
+func constLeafChoice(t *sym.Term) bool {
+	if t.Op != "ite" || len(t.Args) != 3 {
+		return false
+	}
+	leaf := func(x *sym.Term) bool { return x.IsConst() || constLeafChoice(x) }
+	return leaf(t.Args[1]) && leaf(t.Args[2])
 }
